@@ -74,3 +74,32 @@ package client
 //@   atcall SplitN requires keyAndValueOnly: arg2.(int) == 2
 //@   flag noframe
 //@   loop 0 invariant nonEmpty: len(ret) >= 1
+
+// ---------------------------------------------------------------------------------------------
+// Relays between the local proxy client and the streams (C01 TCP, C14 UDP).
+// RouteTCP$1 is the per-connection goroutine: the first chunk read from the local connection
+// goes into the new stream exactly as read (data[:i]: neither the unread tail of the buffer nor a
+// shorter prefix), then the two common.Copy relays take over (see package common).
+// RouteUDP: each datagram read from the socket is written to a stream as ONE Write of exactly its
+// bytes; RouteUDP$1 sends each datagram read from the stream back as ONE WriteTo of exactly its bytes to
+// the source address the stream was opened for.
+// ---------------------------------------------------------------------------------------------
+// the session factory handed to the routers returns a working session (client.MakeSession; assumed here)
+//@ import mux "github.com/cbeuw/Cloak/internal/multiplex"
+//@ func func() *mux.Session
+//@   flag trusted
+//@   ensures ghostcall("multiplex.closable", ret0)
+//@ func io.ReadAtLeast
+//@   flag trusted
+//@   ensures bounds: 0 <= n && n <= len(buf) && (err == nil ==> n >= min)
+//@   modifies elems(buf)
+//@ func RouteTCP$1
+//@   requires localConn != nil && holdsNone() && (!singleplex ==> ghostcall("multiplex.closable", sesh))
+//@   atcall Write requires firstChunkAsRead: sameSlice(arg0.([]byte), data[:i]) && i >= 1
+//@   atcall Copy requires relayBetweenTheTwo: (arg0 == localConn && typeIs[*mux.Stream](arg1) && arg1.(*mux.Stream) == stream) || (arg1 == localConn && typeIs[*mux.Stream](arg0) && arg0.(*mux.Stream) == stream)
+//@   flag noframe
+//@ func RouteUDP$1
+//@   requires stream != nil && localConn != nil && holdsNone() && ghostcall("multiplex.streamOK", stream)
+//@   atcall WriteTo requires wholeDatagramBack: sameSlice(arg0.([]byte), buf[:n]) && arg1 == proxyAddr
+//@   loop 0 invariant buf: len(buf) == 8192 && stream != nil && localConn != nil
+//@   flag noframe
